@@ -76,6 +76,56 @@ mod verif_replay_toktrie {
         words
     }
 
+    /// executable TrieWf (DESIGN.md section 3): depths from the nesting of subtree sizes, num_parents = levels closed,
+    /// token ids in range, and every non-empty vocabulary entry reachable at a node carrying its id
+    fn check_trie_wf(trie: &TokTrie, words: &[Vec<u8>]) -> Result<(), String> {
+        let nodes = &trie.nodes;
+        let n = nodes.len();
+        if n == 0 || nodes[0].subtree_size() != n {
+            return Err(format!("root subtree size {} != node count {n}", nodes[0].subtree_size()));
+        }
+        // depth and path of every node via a stack of (end index, path length)
+        let mut ends: Vec<usize> = vec![n];
+        let mut path: Vec<u8> = vec![];
+        let mut depth = vec![0usize; n];
+        let mut paths: Vec<Vec<u8>> = vec![vec![]; n];
+        for j in 1..n {
+            while *ends.last().unwrap() <= j {
+                ends.pop();
+                path.pop();
+            }
+            let sz = nodes[j].subtree_size();
+            if sz < 1 || j + sz > *ends.last().unwrap() {
+                return Err(format!("node {j}: subtree [{j},{}) not nested in its parent's", j + sz));
+            }
+            depth[j] = ends.len();
+            path.push(nodes[j].byte());
+            paths[j] = path.clone();
+            ends.push(j + sz);
+            if let Some(t) = nodes[j].token_id() {
+                if t as usize >= words.len() {
+                    return Err(format!("node {j}: token id {t} out of range"));
+                }
+                if words[t as usize] != paths[j] {
+                    return Err(format!("node {j}: carries token {t} but its path is {:?}", paths[j]));
+                }
+            }
+        }
+        for j in 1..n {
+            let e = j + nodes[j].subtree_size();
+            let dnext = if e < n { depth[e] } else { 1 };
+            if nodes[j].num_parents() != depth[j] + 1 - dnext {
+                return Err(format!("node {j}: num_parents {} != depth {} - next depth {dnext} + 1", nodes[j].num_parents(), depth[j]));
+            }
+        }
+        for (i, w) in words.iter().enumerate() {
+            if !w.is_empty() && !(1..n).any(|j| nodes[j].token_id() == Some(i as u32) && paths[j] == *w) {
+                return Err(format!("token {i} {w:?} has no node"));
+            }
+        }
+        Ok(())
+    }
+
     #[test]
     fn verif_replay_toktrie() {
         let seed: u64 = std::env::var("VERIF_SEED").ok().and_then(|s| s.parse().ok()).unwrap_or(0);
@@ -85,6 +135,28 @@ mod verif_replay_toktrie {
             let words = random_vocab(&mut rng);
             let n_vocab = words.len();
             let trie = TokTrie::from(&TokRxInfo::new(n_vocab as u32, 0), &words);
+            // ASSUMPTION CHECK (TrieBuilder => TrieWf): the layout invariant the Verus proof of the walk assumes
+            if let Err(e) = check_trie_wf(&trie, &words) {
+                panic!("REPLAY-FAIL trie layout invariant (TrieWf) violated by TokTrie::from: {e}; vocab={words:?}");
+            }
+            // greedy tokenisation of covered text decodes back to it
+            if (0u8..=255).all(|b| words.iter().any(|w| w.len() == 1 && w[0] == b)) || true {
+                let mut text: Vec<u8> = vec![];
+                for _ in 0..4 {
+                    let w = &words[rng.below(n_vocab as u64) as usize];
+                    if !w.is_empty() && w[0] != 0xff {
+                        text.extend_from_slice(w);
+                    }
+                }
+                // only claim the round trip when every byte of the text is itself a token (coverage)
+                if text.iter().all(|b| words.iter().any(|w| w.len() == 1 && w[0] == *b)) {
+                    let toks = trie.greedy_tokenize(&text);
+                    let back: Vec<u8> = toks.iter().flat_map(|&t| trie.token(t).to_vec()).collect();
+                    if back != text {
+                        panic!("REPLAY-FAIL greedy_tokenize({text:?}) = {toks:?} decodes to {back:?}; vocab={words:?}");
+                    }
+                }
+            }
             // token <-> bytes
             for (i, w) in words.iter().enumerate() {
                 if trie.token(i as u32) != &w[..] {
